@@ -639,7 +639,7 @@ func (ctx *Context) evaluate() {
 				if ctx.Config.defaultDiceSideExprCacheFunc != nil {
 					fd, ok := ctx.Config.defaultDiceSideExprCacheFunc.ReadFunctionData()
 					if ok {
-						if fd.Expr == ctx.Config.DefaultDiceSideExpr {
+						if fd.Expr == ctx.Config.DefaultDiceSideExpr && ctx.Config.defaultDiceSideExprCacheKey == ctx.Config.syntaxSwitches() {
 							val = ctx.Config.defaultDiceSideExprCacheFunc
 						}
 					}
@@ -654,6 +654,7 @@ func (ctx *Context) evaluate() {
 						codeIndex: 0,
 					})
 					ctx.Config.defaultDiceSideExprCacheFunc = val
+					ctx.Config.defaultDiceSideExprCacheKey = ctx.Config.syntaxSwitches()
 				}
 
 				v := val.FuncInvoke(ctx, nil)
